@@ -1,5 +1,5 @@
 (* Case runner for C11. *)
-From PV Require Import M_Prune S_Prune R_Filter.
+From PV Require Import M_Prune S_Prune R_Filter R_Driver.
 Open Scope Z_scope.
 Open Scope string_scope.
 
@@ -51,6 +51,7 @@ Definition steps_of (t : term) : list pstep := map step_of (gl t).
 
 Definition run_C11 (i : term) : term :=
   let op := gs (gn i 0) in
+  if String.eqb op "e2e" then run_e2e i else
   if String.eqb op "simplify" then TS (simplify_func (gs (gn i 1)))
   else
     let p := profile_of (gn i 1) in
@@ -82,7 +83,8 @@ Definition run_C11 (i : term) : term :=
       TL [TS "ok"; free_fsamples p' (fsamples p')]
     else TL [TS "bad-op"].
 
-Definition eqv_C11 (i m o : term) : bool := term_eqb m o.
+Definition eqv_C11 (i m o : term) : bool :=
+  if String.eqb (gs (gn i 0)) "e2e" then eqv_e2e i m o else term_eqb m o.
 
 (* drop / keep actually in force for a removeun case *)
 Definition ru_drop (p : profile) : string := anchor (p_dropframes p).
@@ -91,6 +93,7 @@ Definition ru_keep (p : profile) : option string :=
 
 Definition spec_C11 (i o : term) : bool :=
   let op := gs (gn i 0) in
+  if String.eqb op "e2e" then existsb (Z.eqb 900) (cls_e2e i) || spec_e2e i o else
   if String.eqb op "simplify" then
     (* the simplified name is a prefix of the name without its leading dot *)
     (* ... and no argument list is left: scanning the result again finds no bare "(" to cut at *)
@@ -128,6 +131,7 @@ Definition spec_C11 (i o : term) : bool :=
 
 Definition cls_C11 (i : term) : list Z :=
   let op := gs (gn i 0) in
+  if String.eqb op "e2e" then cls_e2e i else
   if String.eqb op "simplify" then []
   else
     let p := profile_of (gn i 1) in
